@@ -87,12 +87,16 @@ Definition fail_at (cfg : config) (s : rstate) (i : option nat) (f : failure) : 
       (Some (i, f)) (r_did_import s)
       (match c_on_error cfg with OE_raise => E_raise f | OE_return => E_break end).
 
+(* part.directives (may raise for lazily extracted ones) then RuntimeState.update *)
+Definition part_update (requires_met : str -> res bool) (rs : runstate) (p : part) : ures runstate :=
+  if p_dirs_raise p then UErr U_Requires else rs_update requires_met rs (p_directives p).
+
 (* one iteration of the loop over parts *)
 Definition step (requires_met : str -> res bool) (cfg : config) (oc : nat -> outcome)
            (s : rstate) (i : nat) (p : part) : rstate :=
   match r_end s with
   | E_running =>
-      match rs_update requires_met (r_rs s) (p_directives p) with
+      match part_update requires_met (r_rs s) p with
       | UNeed q => set_end s (E_update_need q)
       | UErr _ => fail_at cfg s (Some i) F_directive
       | UOk rs' =>
